@@ -19,12 +19,12 @@ pub const INFO: PropInfo = PropInfo {
            non-trivial = the server produced at least one complete response or closed the connection in reaction to the input; distinct = distinct hash of (class, mutation, wire bytes, close behaviour)",
     state_measure: "(class, mutation kind, outcome kind) triples reached",
     assumptions: &[
-        "(W) heads are at most 1023 bytes (the fixed 1 KiB buffer is an implementation limit the statement does not mention; longer heads are class G)",
+        "(W) heads are at most 1024 bytes — what fits the fixed 1 KiB buffer, an implementation limit the statement does not mention; longer heads are class G",
         "(W) header values contain no CR/LF/NUL and no leading/trailing space; query pairs have non-empty keys, contain '=' and no '+'",
         "the whole client input arrives as one segment and is read by one read (segmentation is C06's quantifier)",
         "custom header names are looked up by handlers in lower case; standard ones through the typed accessors and get()",
     ],
-    expected_probes: &["w.body_crosses_1024", "w.repeated_header", "m.fin_inside_head", "m.fin_inside_body", "g.complete_answered", "m.connection_error_inside_request"],
+    expected_probes: &["w.body_crosses_1024", "w.repeated_header", "m.fin_inside_head", "m.fin_inside_body", "g.complete_answered", "m.connection_error_inside_request", "w.head_at_buffer_edge"],
 };
 
 #[derive(Clone, Debug, Serialize, Deserialize)]
@@ -326,10 +326,16 @@ pub fn generate(cfg: &RunCfg, out: &mut Outcome) -> Scenario {
     };
     let mut base = gen_request(&opts);
     // keep the (W) head below the buffer size
-    while base.head_bytes().len() >= 1024 {
+    while base.head_bytes().len() > 1024 {
         if base.headers.pop().is_none() {
             base.path = "/".into();
             base.query = None;
+        }
+    }
+    if class == 0 {
+        crate::reqmodel::maybe_pad_to_buffer_edge(&mut base);
+        if base.head_bytes().len() >= 1020 {
+            out.probe("w.head_at_buffer_edge");
         }
     }
     if cfg.entering("body-first-byte-nul") {
